@@ -2,7 +2,7 @@
   GeoProofs.Glue.ParseGlueGColl — generated parseJSONGeometryCollection = the "GeometryCollection" arm of
   the model's parse, given that the recursion parameter rec_Parse agrees with the model one level down.
 -/
-import GeoProofs.Glue.ParseGlueColl
+import GeoProofs.Glue.ParseGlueOK
 
 set_option linter.unusedSimpArgs false
 
@@ -27,14 +27,14 @@ theorem Agree.toU {g : Obj × Option (PGen.Err MStr)} {m : Except PErr Obj} (h :
   | ok ob => exact h
   | error e => cases e <;> simp_all [Agree, AgreeU, errU, errG]
 
-/-- the recursion parameter agrees with the model at `fuel` -/
+/-- the recursion parameter agrees with the model at `fuel`, on values without overflowing literals -/
 def RecOK (rec : RecT) (o : POpts) (fuel : Nat) : Prop :=
-  ∀ v : JVal, AgreeU (rec [Piece.doc v] (some (optsG o))) (parse o fuel v)
+  ∀ v : JVal, JOK v = true → AgreeU (rec [Piece.doc v] (some (optsG o))) (parse o fuel v)
 
 abbrev GGC := PGen.GeometryCollection MF GRect Obj (List Obj) MStr
 
 theorem gcoll_fold (rec : RecT) (o : POpts) (fuel : Nat) (hrec : RecOK rec o fuel) :
-    ∀ (items : List JVal) (xs : List RPair), xs.map (·.2) = items.map some → ∀ (g : GGC),
+    ∀ (items : List JVal) (xs : List RPair), xs.map (·.2) = items.map some → (∀ v ∈ items, JOK v = true) → ∀ (g : GGC),
     match parseList o fuel items with
     | .ok children =>
       searchFold (PGen.parseJSONGeometryCollection_lit1 (mops rec) (some (optsG o))) xs (g, none) =
@@ -42,9 +42,9 @@ theorem gcoll_fold (rec : RecT) (o : POpts) (fuel : Nat) (hrec : RecOK rec o fue
     | .error e => errU (searchFold (PGen.parseJSONGeometryCollection_lit1 (mops rec) (some (optsG o))) xs (g, none)).2 e := by
   intro items
   induction items with
-  | nil => intro xs h g; simp at h; subst h; simp [parseList, searchFold]
+  | nil => intro xs h _ g; simp at h; subst h; simp [parseList, searchFold]
   | cons v vs ih =>
-    intro xs h g
+    intro xs h hJ g
     cases xs with
     | nil => simp at h
     | cons x xs =>
@@ -52,7 +52,7 @@ theorem gcoll_fold (rec : RecT) (o : POpts) (fuel : Nat) (hrec : RecOK rec o fue
       obtain ⟨hx, hxs⟩ := h
       obtain ⟨k, x2⟩ := x
       simp only at hx; subst hx
-      have hr := hrec v
+      have hr := hrec v (hJ v (by simp))
       rw [parseList]
       have hstep : PGen.parseJSONGeometryCollection_lit1 (mops rec) (some (optsG o)) (k, some v) (g, none) =
           (if !(rec [Piece.doc v] (some (optsG o))).2.isNone then ((g, (rec [Piece.doc v] (some (optsG o))).2), false)
@@ -77,7 +77,7 @@ theorem gcoll_fold (rec : RecT) (o : POpts) (fuel : Nat) (hrec : RecOK rec o fue
             (({ g with collection := { g.collection with children := g.collection.children ++ [c] } }, none), true) := by
           rw [hstep, hr]; rfl
         rw [searchFold_cons_true _ _ _ _ _ hstep']
-        have := ih xs hxs { g with collection := { g.collection with children := g.collection.children ++ [c] } }
+        have := ih xs hxs (fun v' h' => hJ v' (by simp [h'])) { g with collection := { g.collection with children := g.collection.children ++ [c] } }
         cases hl : parseList o fuel vs with
         | error e => rw [hl] at this; simpa using this
         | ok cs => rw [hl] at this; simp only at this ⊢; rw [this]; simp
@@ -92,7 +92,8 @@ def mGColl (o : POpts) (fuel : Nat) (k : Keys) : Except PErr Obj :=
     | .ok children => .ok (mkColl o .geometryCollection children (withMembers none k))
   | .ok _ => .error .geometriesInvalid
 
-theorem gcoll_eq (rec : RecT) (o : POpts) (fuel : Nat) (hrec : RecOK rec o fuel) (gk : GKeys) (k : Keys) (hk : KeysRel gk k) :
+theorem gcoll_eq (rec : RecT) (o : POpts) (fuel : Nat) (hrec : RecOK rec o fuel) (gk : GKeys) (k : Keys) (hk : KeysRel gk k)
+    (hJ : ∀ items, k.geometries = some (.arr items) → ∀ v ∈ items, JOK v = true) :
     AgreeU (PGen.parseJSONGeometryCollection (mops rec) (some gk) (some (optsG o))) (mGColl o fuel k) := by
   unfold PGen.parseJSONGeometryCollection mGColl reqArray
   simp only [m_gjsonResultExists, m_gjsonResultIsArray, m_gjsonResultForEach, m_nilObject, m_objectOfGeometryCollection,
@@ -102,7 +103,7 @@ theorem gcoll_eq (rec : RecT) (o : POpts) (fuel : Nat) (hrec : RecOK rec o fuel)
   | some rc =>
     cases rc with
     | arr items =>
-      have hf := gcoll_fold rec o fuel hrec items (forEach (some (.arr items))) (by simp [forEach]) (PGen.zeroGeometryCollection (mops rec))
+      have hf := gcoll_fold rec o fuel hrec items (forEach (some (.arr items))) (by simp [forEach]) (hJ items hc) (PGen.zeroGeometryCollection (mops rec))
       simp only [Option.isSome_some, Bool.not_true, Bool.false_eq_true, if_false, JVal.isArray, ↓reduceIte]
       cases hl : parseList o fuel items with
       | error e =>
